@@ -19,6 +19,11 @@ def configs(rng, tier):
             for im in impls:
                 cs.append({"kind": "actor", "lib": lib, "attr": gen_impl.actor_attr(lib, ch, debut=rng.random() < 0.3), "item": im["item"],
                            "want": [ch if ch else None], "opts": [(None, ch)], "label": "actor lib=%s channel=%s" % (lib, ch)})
+    # large capacities: the option is passed through unchanged whatever its size (one impl block each, no burst search)
+    for lib in gen_impl.LIBS:
+        for ch in (65536, 65537, 100000):
+            cs.append({"kind": "actor", "lib": lib, "attr": gen_impl.actor_attr(lib, ch), "item": gen_impl.probe_impl(lib)["item"],
+                       "want": [ch], "opts": [(None, ch)], "label": "actor lib=%s channel=%s" % (lib, ch), "big": True})
     # families: inherited and overridden member capacity
     for lib in ("std", "tokio", "async_std"):
         for fam_ch in (None, 0, 2, 3):
@@ -73,8 +78,8 @@ def run(rep):
             owners.append((c, j))
     def nopt(x):
         return "None" if x is None else "(Some %d%%N)" % x
-    funs = [("wf", "wf_C08 {i}"), ("cap", "cap_of {i}"), ("search", "c08_search (elab {i}) {a}")]
-    res, mod = inst.coq_eval(PID, terms, funs, extra_imports="From IT Require Import Runtime.Explore Gen.Channel.", per_inst_args=[coq_opt(c["want"][j]) for c, j in owners])
+    funs = [("wf", "wf_C08 {i}"), ("cap", "capN_of {i}"), ("search", "c08_search (elab {i}) {a}")]
+    res, mod = inst.coq_eval(PID, terms, funs, extra_imports="From IT Require Import Runtime.Explore Gen.Channel.", per_inst_args=[coq_opt(None if c.get("big") else c["want"][j]) for c, j in owners])
     # the generator model (Gen/Channel.v) predicts the constructor of every instance from the options it was given
     vals = inst.coq_values("C08_ctor", inst.HEADER + "From IT Require Import Gen.Channel.\nFrom ITG Require Import C08_inst.",
                            [("m%d" % k, "ctor_matches inst_%d %s %s" % (k, nopt(c["opts"][j][0]), nopt(c["opts"][j][1]))) for k, (c, j) in enumerate(owners)])
@@ -83,7 +88,7 @@ def run(rep):
     for k, ((c, j), r) in enumerate(zip(owners, res)):
         want = c["want"][j]
         ok_wf = rep.oblige(r["wf"] == "true")
-        ok_cap = rep.oblige(r["cap"] == ("None" if want is None else "Some %d" % want)) and rep.oblige(vals["m%d" % k] == "true")
+        ok_cap = rep.oblige(r["cap"].replace("%N", "") == ("None" if want is None else "Some %d" % want)) and rep.oblige(vals["m%d" % k] == "true")
         rep.nontrivial.add((c["lib"], want, c["kind"], j))
         if k % 17 == 0:
             rep.sample({"config": c["label"], "attr": c["attr"], "model": j, "wf_C08": r["wf"], "cap_of": r["cap"], "expected_cap": want})
@@ -91,7 +96,8 @@ def run(rep):
             good.append(k)
             continue
         # failing-input search on the model elaborated from the real expansion
-        found = r["search"] != "[]"
+        # the constructor / capacity literal of the real expansion contradicting the option is itself the failing input
+        found = r["search"] != "[]" or (r["wf"] == "true" and not ok_cap)
         rep.violation("inst_%s_%d" % (c["label"], j), {
             "what": "instance premise no longer checks: wf_C08=%s cap_of=%s expected capacity=%s" % (r["wf"], r["cap"], want),
             "attr": c["attr"], "item": c["item"], "kind": c["kind"], "model_index": j,
